@@ -295,3 +295,31 @@ def schema_attrs(ctx: Ctx) -> set[str]:
         if ok:
             out.add(a)
     return out
+
+
+def reachable_funcs(ctx: Ctx, f: FuncInfo, depth: int = 3) -> dict:
+    """fq -> FuncInfo of f and the functions of the package it (transitively, up to `depth` calls) reaches."""
+    seen = {f.fq: f}
+    work = [(f, 0)]
+    while work:
+        g_, d_ = work.pop()
+        for n in ctx.own_nodes(g_):
+            if not (isinstance(n, ast.Call) and isinstance(n.func, (ast.Name, ast.Attribute))):
+                continue
+            try:
+                names = callee_names(ctx, g_, n)
+            except AnalysisError:
+                continue
+            for nm in sorted(names):
+                if not nm.startswith("aiomysensors.") or nm in seen:
+                    continue
+                try:
+                    h = ctx.func(nm)
+                except (AnalysisError, KeyError):
+                    continue
+                if h is None:
+                    continue
+                seen[nm] = h
+                if d_ + 1 < depth:
+                    work.append((h, d_ + 1))
+    return seen
